@@ -21,10 +21,56 @@ fn c17(paths: &[String]) {
     }
 }
 
+/// Compile a system dictionary with the repository's DictBuilder and return its bytes.
+fn compile_system(matrix: &str, csv: &str) -> Result<Vec<u8>, String> {
+    use sudachi::dic::build::DictBuilder;
+    let mut b = DictBuilder::new_system();
+    b.read_conn(std::fs::read(matrix).unwrap().as_slice()).map_err(|e| format!("{}", e))?;
+    b.read_lexicon(std::fs::read(csv).unwrap().as_slice()).map_err(|e| format!("{}", e))?;
+    b.resolve().map_err(|e| format!("{}", e))?;
+    let mut out = Vec::new();
+    b.compile(&mut out).map_err(|e| format!("{}", e))?;
+    Ok(out)
+}
+
+fn le32(b: &[u8], at: usize) -> usize {
+    u32::from_le_bytes([b[at], b[at + 1], b[at + 2], b[at + 3]]) as usize
+}
+
+/// c04 <matrix.def> <lex.csv>...: per dictionary print the double array and the word-id table
+/// (located with the public loader API: header size + grammar.storage_size, then the documented
+/// layout `u32 units; units; u32 bytes; table`).
+fn c04(args: &[String]) {
+    use sudachi::dic::header::Header;
+    use sudachi::dic::DictionaryLoader;
+    let matrix = &args[0];
+    for csv in &args[1..] {
+        let bytes = match compile_system(matrix, csv) {
+            Ok(b) => b,
+            Err(e) => {
+                println!("{}\tERR\t{}", csv, e.replace('\n', " "));
+                continue;
+            }
+        };
+        let dl = DictionaryLoader::read_system_dictionary(&bytes).expect("loads");
+        let lexoff = Header::STORAGE_SIZE + dl.grammar.as_ref().unwrap().storage_size;
+        let nunits = le32(&bytes, lexoff);
+        let t0 = lexoff + 4;
+        let units: Vec<String> = (0..nunits).map(|i| le32(&bytes, t0 + 4 * i).to_string()).collect();
+        let tsz_at = t0 + 4 * nunits;
+        let tsz = le32(&bytes, tsz_at);
+        let table: Vec<String> = bytes[tsz_at + 4..tsz_at + 4 + tsz].iter().map(|b| b.to_string()).collect();
+        println!("{}\tOK\t{}\t{}\t{}\t{}", csv, dl.lexicon.size(), units.join(","), table.join(","), lexoff);
+        let dump = format!("{}.dic", csv);
+        std::fs::write(dump, &bytes).unwrap();
+    }
+}
+
 fn main() {
     let args: Vec<String> = std::env::args().skip(1).collect();
     match args.get(0).map(|s| s.as_str()) {
         Some("c17") => c17(&args[1..]),
+        Some("c04") => c04(&args[1..]),
         _ => {
             eprintln!("usage: verif-gen c17 <char.def>...");
             std::process::exit(2);
